@@ -880,6 +880,7 @@ type PatchExpiredEntry struct {
 
 const (
 	ErrorTreasureDoesNotExists = "treasure does not exists"
+	ErrorSwampIsClosed         = "the swamp instance is closed"
 )
 
 // BeaconType is used to define the type of the Beacon.
@@ -2433,7 +2434,6 @@ func (s *swamp) destroy(onlyIfEmpty bool) {
 	s.destroyed = true
 	s.closeMutex.Unlock()
 
-
 	// Wait for all active vigils to drain BEFORE acquiring s.mu.
 	//
 	// The write path holds a vigil across an s.mu.RLock():
@@ -2670,6 +2670,11 @@ func (s *swamp) DeleteTreasure(key string, shadowDelete bool) error {
 
 	// set the last interaction time to the current time
 	atomic.StoreInt64(&s.lastInteractionTime, time.Now().UnixNano())
+	// an instance that has been closed or destroyed (for example by this very request, when the previous key was the
+	// last one and the auto-destroy ran) takes no more deletes: nothing it does would reach the file
+	if s.goRoutineContext.Err() != nil {
+		return errors.New(ErrorSwampIsClosed)
+	}
 	if !s.beaconKey.IsExists(key) {
 		return errors.New(ErrorTreasureDoesNotExists)
 	}
